@@ -4,7 +4,7 @@
    duplicate-free suffix-ordered n-grams with adjusted count and pruning mark (KNSpec.v); kn_spec = table followed by
    discounts, uninterpolated probabilities, gammas and interpolation over exact rationals. *)
 From Coq Require Import List NArith ZArith QArith Bool.
-From Kenlm Require Import C05.KNDefs C05.KNSpec C05.KNModel C05.KNWitness C05.KNLex C05.KNAdjustD C05.KNAdjustF C05.KNNgramSet C06.GoodTable C05.KNPipeline C05.CollapseModel C05.CollapseProofs.
+From Kenlm Require Import C05.KNDefs C05.KNSpec C05.KNModel C05.KNWitness C05.KNLex C05.KNAdjustD C05.KNAdjustF C05.KNNgramSet C06.GoodTable C05.KNPipeline C05.CollapseModel C05.CollapseProofs C05.CollapseCover C05.MergeCombine.
 Import ListNotations.
 
 (* F1, the unrepaired final flush (fix_stat = false): there is a corpus on which the counts-of-counts collected by the
@@ -67,3 +67,14 @@ Proof. exact collapse_overflow_witness. Qed.
 (* ... the repaired one only touches valid slots, for every sequence of block sizes (empty blocks included). *)
 Theorem C05_collapse_accesses_in_bounds : forall vs a, In a (accesses true vs) -> in_bounds vs a.
 Proof. exact collapse_accesses_in_bounds. Qed.
+
+(* ... and it visits (marks for pruning) EVERY valid slot of every block, the first slot of the second and later blocks included. *)
+Theorem C05_collapse_accesses_cover : forall vs b i, (i < nth b vs 0)%nat -> In (b, i) (accesses true vs).
+Proof. exact collapse_accesses_cover. Qed.
+
+(* corpus_count hands the sorter one deduplicated block after another; the sorter merges the sorted runs with CombineCounts,
+   which adds the counts of two records iff ALL their words are equal.  Wherever the block borders fall (any number of
+   blocks, any sizes), the merged stream is `sorted_counts` of the whole corpus -- the input of the AdjustCounts theorems. *)
+Theorem C05_merge_runs_any_blocks : forall n (blocks : list (list gram)),
+  merge_runs (map (sorted_counts n) blocks) = sorted_counts n (concat blocks).
+Proof. exact merge_runs_blocks. Qed.
